@@ -234,6 +234,28 @@ Definition init_okb (s : sess) : bool :=
   gmap_allb (fun _ n => negb (n_has_node n) || negb (bool_decide (sc (n_idle n) = None))) (nodes s) &&
   bool_decide (saved s = ∅).
 
+(* ---- Session.Evict (directed "evict" family, law 113) ----
+   the recorder's per-job ledger equals the requests of the job's tasks that hold resources
+   (allocated statuses and Pipelined), for every job the session knows *)
+Definition holds_share (t : task) : bool :=
+  allocated_status (t_status t) || bool_decide (t_status t = Pipelined).
+Definition share_okb (d : dump) : bool :=
+  gmap_allb (fun k _ =>
+      res_eqvb (default empty_res (d_share d !! k))
+               (sum_req (List.filter (fun t => holds_share t && bool_decide (t_job t = k))
+                                     (map snd (map_to_list (d_heap d)))))) (d_jobs d).
+
+(* after every Session.Evict, whatever it returns: the invariant; the handler ledger still equals
+   the sum over the job's tasks (if it did before); an Evict that RETURNS an error changed nothing
+   in the session; a successful one left the task Releasing and reached the evictor exactly once *)
+Definition law_ssn_evict (tid : positive) (res : Z) (b a : dump) (evs : list positive) : bool :=
+  ledger_okb (d_heap a) (d_jobs a) (d_nodes a) &&
+  (if share_okb b then share_okb a else true) &&
+  (if res =? 0 then
+     match d_heap a !! tid with Some ta => bool_decide (t_status ta = Releasing) | None => false end &&
+     bool_decide (evs = [tid])
+   else dump_sameb b a).
+
 Definition entry (sel : Z) (toks : list Z) : list Z :=
   match sel with
   | 1 => match run_dec dCase toks with
@@ -271,6 +293,10 @@ Definition entry (sel : Z) (toks : list Z) : list Z :=
            | None => bad_input end
   | 112 => match run_dec dCase toks with
            | Some (e, ns, js, ts, _) => eBool (init_okb (build e ns js ts))
+           | None => bad_input end
+  | 113 => match run_dec (let* t := dPos in let* r := dZ in let* b := dDump in let* a := dDump in
+                          let* es := dList dPos in ret (t, r, b, a, es)) toks with
+           | Some (t, r, b, a, es) => eBool (law_ssn_evict t r b a es)
            | None => bad_input end
   | 101 => match run_dec (let* o := dZ in let* r := dZ in let* t := dZ in let* b := dDump in let* a := dDump in
                           let* nb := dZ in let* ne := dZ in ret (o, r, t, b, a, nb, ne)) toks with
